@@ -1,7 +1,7 @@
 (* C13 property theorems.  Nothing but statements closed by `exact`, a pin, and
    Print Assumptions.  The driver parses this file's output. *)
 From ZV.Common Require Import Base.
-From ZV.C13 Require Import Model ModelIO ModelReader ModelTypes ModelVersioned ModelWriter ModelRangeWriter ModelRun ProofsLeb ProofsZigzag ProofsSeq ProofsIO ProofsReader ProofsTypes ProofsVersioned ProofsWriter ProofsStack ProofsRangeWriter.
+From ZV.C13 Require Import Model ModelIO ModelReader ModelTypes ModelVersioned ModelWriter ModelRangeWriter ModelMmapZc ModelRun ProofsLeb ProofsZigzag ProofsSeq ProofsIO ProofsReader ProofsTypes ProofsVersioned ProofsWriter ProofsStack ProofsRangeWriter ProofsMmapZc.
 Open Scope N_scope.
 
 (* decode (encode v ++ rest) = (v, |encode v|): for every u64 and every trailing bytes *)
@@ -365,3 +365,30 @@ Check range_writer_contiguous :
     contiguous (x_cur st) ws /\ concat (map snd ws) = rw_accepted ops outs /\
     x_cur st' = x_cur st + nlen (rw_accepted ops outs) /\ x_ipos st' = x_cur st'.
 Print Assumptions range_writer_contiguous.
+
+(* MmapZeroCopyReader: for every mapped content, every position inside it and every history of read / read_exact /
+   zc_read (peek) / zc_read+zc_advance / zc_advance / zc_ensure / position operations without an error outcome: the
+   chunks returned (and skipped) concatenate to the mapped bytes from the starting position, followed by what is
+   still ahead *)
+Theorem mmap_zc_reads_concat :
+  forall (data : list N) (ops : list (N * Z)) (pos : N) (os : list obs) (pos' : N),
+    pos <= nlen data -> forallb (fun p => mz_streaming (fst p)) ops = true ->
+    run_ops (mz_op data) ops pos = (os, pos') -> ~ In OErr os ->
+    exists chs, explains ops os chs /\ mz_stream data pos = concat chs ++ mz_stream data pos'.
+Proof. exact mz_reads_concat_proof. Qed.
+Check mmap_zc_reads_concat :
+  forall (data : list N) (ops : list (N * Z)) (pos : N) (os : list obs) (pos' : N),
+    pos <= nlen data -> forallb (fun p => mz_streaming (fst p)) ops = true ->
+    run_ops (mz_op data) ops pos = (os, pos') -> ~ In OErr os ->
+    exists chs, explains ops os chs /\ mz_stream data pos = concat chs ++ mz_stream data pos'.
+Print Assumptions mmap_zc_reads_concat.
+
+(* set_position(p) is accepted only inside the mapping and the stream continues at p *)
+Theorem mmap_zc_set_position :
+  forall (data : list N) a pos p pos',
+    mz_op data 9 a pos = (OPos p, pos') -> pos' = p /\ p <= nlen data /\ mz_stream data pos' = drop p data.
+Proof. exact mz_seek_ok. Qed.
+Check mmap_zc_set_position :
+  forall (data : list N) a pos p pos',
+    mz_op data 9 a pos = (OPos p, pos') -> pos' = p /\ p <= nlen data /\ mz_stream data pos' = drop p data.
+Print Assumptions mmap_zc_set_position.
